@@ -148,6 +148,21 @@ func (un *Unit) execCall(fr *Frame, st *State, c *ssa.CallCommon, instr ssa.Inst
 			}
 		}
 	}
+	// a function loaded from a package-level variable that a `funcvar` declaration ties to a funcspec
+	if ld, ok := c.Value.(*ssa.UnOp); ok && ld.Op == token.MUL {
+		if g, ok := ld.X.(*ssa.Global); ok && g.Pkg != nil {
+			if fsName, ok := un.specs.FuncVars[pkgKey(g.Pkg.Pkg)+"."+g.Name()]; ok {
+				fs := un.specs.FuncSpecs[fsName]
+				if fs == nil {
+					un.outside = "unknown funcspec " + fsName
+					return un.havocResults(st, sig, "call")
+				}
+				names := append([]string{"this"}, sigNames(sig, fs)...)
+				all := append([]Val{{t: fv.t, typ: sig}}, args...)
+				return un.applyContract(fr, st, fs, names, sig, all, g.Name(), pos)
+			}
+		}
+	}
 	// a function loaded from a struct field that a `funcfield` declaration ties to a funcspec
 	if ld, ok := c.Value.(*ssa.UnOp); ok && ld.Op == token.MUL {
 		if fa, ok := ld.X.(*ssa.FieldAddr); ok {
@@ -370,7 +385,11 @@ func (un *Unit) callStatic(fr *Frame, st *State, callee *ssa.Function, binds []V
 		if fc.Trusted || !un.prog.isRepoFunc(callee) {
 			un.assumed[funcKey(callee)] = true
 		}
-		return un.applyContract(fr, st, fc, names, sig, args, funcKey(callee), pos)
+		// a closure under contract: its captured variables are in scope of its contract
+		un.pendingClosure, un.pendingBinds = callee, binds
+		v := un.applyContract(fr, st, fc, names, sig, args, funcKey(callee), pos)
+		un.pendingClosure, un.pendingBinds = nil, nil
+		return v
 	}
 	if callee.Blocks != nil && un.prog.isRepoFunc(callee) && fr.depth < un.maxDepth && !un.onStack(fr, callee) {
 		return un.inline(fr, st, callee, binds, args)
@@ -604,8 +623,18 @@ func (un *Unit) execBuiltin(fr *Frame, st *State, b *ssa.Builtin, c *ssa.CallCom
 func (un *Unit) execAppend(fr *Frame, st *State, c *ssa.CallCommon, args []Val, pos token.Pos) Val {
 	st0 := c.Args[0].Type().Underlying().(*types.Slice)
 	et := st0.Elem()
-	ec := un.elemComp(et)
 	a, b := args[0].t, args[1].t
+	if isStructType(et) {
+		// slices of structs: the result is modelled abstractly - a fresh backing array of the right length whose
+		// elements are unconstrained (their contents are not copied in the model; an over-approximation)
+		arr2 := un.allocRef(st, "append")
+		newLen := "(+ (s_len " + a + ") (s_len " + b + "))"
+		cap2 := un.u.freshConst("newcap", "Int")
+		un.addFact("(>= " + cap2 + " " + newLen + ")")
+		un.note("append on a slice of structs: element contents of the result are not tracked")
+		return Val{t: "(mk_slice " + arr2 + " 0 " + newLen + " " + cap2 + ")"}
+	}
+	ec := un.elemComp(et)
 	// b is a slice (append(a, b...)) — SSA always passes a slice as the second argument; a string for append([]byte, string...)
 	var blen string
 	bIsStr := false
@@ -886,6 +915,42 @@ func (un *Unit) modelCall(fr *Frame, st *State, callee *ssa.Function, full strin
 		if v, ok := un.modelSortSlice(fr, st, args, ats, pos); ok {
 			return v, true
 		}
+		// an unrecognised comparison: the slice is permuted in some unknown way - its elements are havoc'd
+		if len(args) >= 1 && strings.HasPrefix(args[0].t, "(mk_iface ") {
+			rest := strings.TrimSuffix(strings.TrimPrefix(args[0].t, "(mk_iface "), ")")
+			if sp := strings.Index(rest, " "); sp > 0 {
+				var tag int
+				if _, err := fmt.Sscanf(rest[:sp], "%d", &tag); err == nil {
+					if stt, ok := typeTagTypes[tag]; ok {
+						if sl, ok := stt.Underlying().(*types.Slice); ok {
+							if isStructType(sl.Elem()) {
+								sc := &Scope{un: un, vars: map[string]SV{}, cur: st, old: st, fr: fr}
+								_ = sc
+								var walk func(t types.Type)
+								walk = func(t types.Type) {
+									stt := t.Underlying().(*types.Struct)
+									for i := 0; i < stt.NumFields(); i++ {
+										if isStructType(stt.Field(i).Type()) {
+											walk(stt.Field(i).Type())
+											continue
+										}
+										c, _ := un.fieldComp(t, i)
+										un.havocComp(st, c)
+									}
+								}
+								walk(sl.Elem())
+							} else {
+								un.havocComp(st, un.elemComp(sl.Elem()))
+							}
+							un.note("sort.Slice with an unrecognised comparison: the elements of the sorted slice are havoc'd (order and contents unknown)")
+							return Val{t: "0"}, true
+						}
+					}
+				}
+			}
+		}
+		un.fullHavoc(st, "sort.Slice on an unknown slice")
+		return Val{t: "0"}, true
 	case "errors.Is":
 		r := un.u.freshConst("errors_is", "Bool")
 		// nil is no error; an error is itself
